@@ -778,6 +778,7 @@ func (c *inlCtx) tryCall(st ast.Stmt, call *ast.CallExpr, kind callKind, as *ast
 	c.counter++
 	tag := fmt.Sprintf("inl%d_%d", c.tf.Line(call.Pos()), c.counter)
 	var pre, post []string // statements before / after the inlined block
+	var complexBack []string
 	var targets []string   // assignment targets for `return e...` inside the body
 	switch kind {
 	case kindExpr:
@@ -806,8 +807,24 @@ func (c *inlCtx) tryCall(st ast.Stmt, call *ast.CallExpr, kind callKind, as *ast
 				targets = append(targets, id.Name)
 			} else {
 				if !simple(l) {
-					c.skip(call, name, "assignment to a complex target")
-					return
+					// m[k] = f(), x.f[i] = f(): through a temporary, when the target's operands are free of calls
+					hasCall := false
+					ast.Inspect(l, func(n ast.Node) bool {
+						switch n.(type) {
+						case *ast.CallExpr, *ast.FuncLit:
+							hasCall = true
+						}
+						return !hasCall
+					})
+					if hasCall {
+						c.skip(call, name, "assignment to a target that contains a call")
+						return
+					}
+					tmp := fmt.Sprintf("%s_a%d", tag, i)
+					pre = append(pre, fmt.Sprintf("var %s %s", tmp, typeStr(sig.Results().At(i).Type())))
+					complexBack = append(complexBack, fmt.Sprintf("%s = %s", c.text(l), tmp))
+					targets = append(targets, tmp)
+					continue
 				}
 				targets = append(targets, c.text(l))
 			}
@@ -1066,6 +1083,9 @@ func (c *inlCtx) tryCall(st ast.Stmt, call *ast.CallExpr, kind callKind, as *ast
 	}
 	sb.WriteString("}\n")
 	for _, l := range copyBack {
+		sb.WriteString(l + "\n")
+	}
+	for _, l := range complexBack {
 		sb.WriteString(l + "\n")
 	}
 	switch kind {
